@@ -1,5 +1,6 @@
 (* Entry points for C03 (segmentation bookkeeping): val -> val wrappers. *)
 From CNV Require Import Base.Prelude Base.Val Model.Arms Model.Segment.
+From CNV Require Model.Haar.
 
 (* bin = (lo hi gene log2 weight|None depth) *)
 Definition getBin (v : val) : option bin :=
@@ -33,7 +34,7 @@ Definition e_c03_chrom (v : val) : val :=
   | VL [m; sl; mw; bs; mask; bps] =>
       match getMethod m, getB sl, getQ mw, getList getBin bs, getList getB mask, getList getZ bps with
       | Some m', Some sl', Some mw', Some bs', Some mask', Some bps' =>
-          VL (map vSeg (chrom_segs m' (flag_bins sl' mw' bs' mask') bps'))
+          VL (map vSeg (chrom_segs_code m' (flag_bins sl' mw' bs' mask') bps'))
       | _, _, _, _, _, _ => bad_input
       end
   | _ => bad_input
@@ -57,7 +58,7 @@ Definition e_c03_hmm (v : val) : val :=
       | Some sl', Some mw' =>
           match getList (getChromIn sl' mw') chroms with
           | Some tbl =>
-              VL (map (fun p => VL [VS (fst p); VL (map vSeg (snd p))]) (hmm_table tbl))
+              VL (map (fun p => VL [VS (fst p); VL (map vSeg (snd p))]) (hmm_table_code tbl))
           | None => bad_input
           end
       | _, _ => bad_input
@@ -65,11 +66,20 @@ Definition e_c03_hmm (v : val) : val :=
   | _ => bad_input
   end.
 
-(* [(lo hi) ...] of one chromosome -> arm sizes (model of by_arm) *)
+(* ([(lo hi) ...] r) of one chromosome, r = the code's int(round(0.1 * n)) or None for the exact
+   round-half-even -> (contract holds, arm sizes)   (model of by_arm) *)
 Definition e_c03_arms (v : val) : val :=
-  match getList (getPair getZ getZ) v with
-  | Some rows => vListZ (map (fun a => Z.of_nat (length a)) (arm_split fst snd rows))
-  | None => bad_input
+  match v with
+  | VL [rows; r] =>
+      match getList (getPair getZ getZ) rows, getOpt getZ r with
+      | Some rows', Some r' =>
+          let n := Z.of_nat (length rows') in
+          let r'' := match r' with Some z => z | None => round_share n end in
+          VL [VB (round_contract_b n r'');
+              vListZ (map (fun a => Z.of_nat (length a)) (arm_split_with fst snd r'' rows'))]
+      | _, _ => bad_input
+      end
+  | _ => bad_input
   end.
 
 (* survivor flags of the three filters *)
@@ -79,6 +89,68 @@ Definition e_c03_survives (v : val) : val :=
       match getB sl, getQ mw, getList getBin bs, getList getB mask with
       | Some sl', Some mw', Some bs', Some mask' => VL (map (fun f => VB (snd f)) (flag_bins sl' mw' bs' mask'))
       | _, _, _, _ => bad_input
+      end
+  | _ => bad_input
+  end.
+
+(* ---- the whole table, per-arm methods, along the code's path -------------------------------- *)
+
+Definition getHO (v : val) : option haar_oracle :=
+  match v with
+  | VL [sg; pv; ab] =>
+      match getList getQ sg, getList (getList getQ) pv, getList getB ab with
+      | Some sg', Some pv', Some ab' => Some (mkHO sg' pv' ab')
+      | _, _, _ => None
+      end
+  | _ => None
+  end.
+
+(* (name bins outlier_mask breakpoints haar_oracles variants|None state_paths) *)
+Definition getChromJob (sl : bool) (mw : Q) (v : val) : option chrom_job :=
+  match v with
+  | VL [nm; bs; mask; bps; hos; vars; sts] =>
+      match getS nm, getList getBin bs, getList getB mask, getList getZ bps, getList getHO hos,
+            getOpt (getList (getPair getZ getZ)) vars, getList (getList getZ) sts with
+      | Some nm', Some bs', Some mask', Some bps', Some hos', Some vars', Some sts' =>
+          Some (mkCJ nm' (flag_bins sl mw bs' mask') bps' hos' vars' sts')
+      | _, _, _, _, _, _, _ => None
+      end
+  | _ => None
+  end.
+
+Definition scale_fun (l : list Q) (h : Z) : Q :=
+  nth (Z.to_nat (Z.log2 h - hd 0 Model.Haar.haar_levels)) l 1%Q.
+
+(* (method skip_low min_weight q scales_u scales_w processes assignment chromosomes)
+   method: "none" | "haar-given" (breakpoints as oracle) | "haar" (computed);
+   -> rows (chromosome segment baf_range_lo baf_range_hi) in table order, or an error when a
+   worker raised *)
+Definition e_c03_table (v : val) : val :=
+  match v with
+  | VL [m; sl; mw; q; su; sw; p; asg; chroms] =>
+      match getS m, getB sl, getQ mw, getQ q, getList getQ su, getList getQ sw, getZ p, getList getZ asg with
+      | Some m', Some sl', Some mw', Some q', Some su', Some sw', Some p', Some asg' =>
+          match getList (getChromJob sl' mw') chroms with
+          | Some tbl =>
+              let tm := if String.eqb m' "none" then Some (TGiven MNone)
+                        else if String.eqb m' "haar-given" then Some (TGiven MHaar)
+                        else if String.eqb m' "haar" then Some (THaar (scale_fun su') (scale_fun sw') q')
+                        else None in
+              let pn := Z.to_nat p' in
+              let assign (i : nat) := Nat.modulo (Z.to_nat (nth i asg' 0)) pn in
+              match tm with
+              | Some tm' =>
+                  match table_segs (fun _ lo hi => (lo, hi)) pn assign tm' tbl with
+                  | Some rows =>
+                      VL (map (fun r => VL [VS (fst r); vSeg (fst (snd r));
+                                            VZ (fst (snd (snd r))); VZ (snd (snd (snd r)))]) rows)
+                  | None => VErr "RuntimeError"%string
+                  end
+              | None => bad_input
+              end
+          | None => bad_input
+          end
+      | _, _, _, _, _, _, _, _ => bad_input
       end
   | _ => bad_input
   end.
